@@ -100,6 +100,8 @@ pub fn gen_frame(rng: &mut Rng, n: usize, out: &mut Vec<String>) {
             out.push(format!("frame {} {}", hex(&stream), sizes_str(&sizes)));
         }
     }
+    // ... and around 16 MiB, where the length needs a fourth octet (built inside the lane: see run_big); cut 0 = one octet before the end
+    for (size, cut) in [(16_777_100usize, 6usize), (16_777_216, 1), (16_777_216, 6), (16_777_252, 6), (16_777_252, 4096), (16_777_252, 0)] { out.push(format!("bigframe {} {}", size, cut)); }
     for i in 0..n / 2 {
         let corp = corpus(rng);
         let k = 1 + rng.below(6) as usize;
@@ -325,6 +327,29 @@ fn own_shape(t: &StructureTag) -> bool {
     match (&kids[0].payload, kids[0].class, kids[0].id) { (PL::P(v), TagClass::Universal, 2) if !v.is_empty() => {} _ => return false }
     if kids.len() == 3 { let k = &kids[2]; if k.class != TagClass::Context { return false; } match (k.id, &k.payload) { (0, PL::C(_)) | (10, _) => {} _ => return false } }
     true
+}
+
+/// Frames around 16 MiB (the 3/4-octet length boundary) are too big for a case line and for the list-based model: the lane builds the
+/// message itself (an entry with one value of `size` octets, a final result behind it), cuts the stream at `cut` and checks on its own that
+/// both messages come out, whole, whatever the cut (oracle-only; the theorem c06_any_segmentation has no size bound).
+pub fn run_big(args: &[&str]) -> (String, Option<String>) {
+    let size: usize = args[0].parse().unwrap(); let cut: usize = args[1].parse().unwrap();
+    let big = message(7, entry(b"cn=big", &[(b"blob", vec![vec![0x61u8; size]])]), None);
+    let fin = message(7, ldap_result(5, 0, b"", b"", None), None);
+    let mut rng = Rng::new(size as u64 ^ cut as u64);
+    let mut stream = encode_with(&big, &mut rng, false); let biglen = stream.len(); stream.extend(encode_with(&fin, &mut rng, false));
+    let cut = if cut == 0 { biglen - 1 } else { cut.min(stream.len() - 1) };
+    let mut buf = BytesMut::new(); let mut got: Vec<StructureTag> = vec![]; let mut err = None;
+    'outer: for ch in [&stream[..cut], &stream[cut..]] {
+        buf.extend_from_slice(ch);
+        loop { match std::panic::catch_unwind(std::panic::AssertUnwindSafe(|| ldap3::verif_decode(&mut buf))) {
+            Err(_) => { err = Some("panic"); break 'outer; } Ok(Err(_)) => { err = Some("error"); break 'outer; } Ok(Ok(None)) => break,
+            Ok(Ok(Some((id, t, _)))) => { if id != 7 { err = Some("wrong id"); break 'outer; } got.push(t); } } }
+    }
+    let kid = |m: &StructureTag| match &m.payload { PL::C(k) => k[1].clone(), _ => unreachable!() };
+    let o = if let Some(e) = err { Some(format!("a well-formed {}-octet frame cut after {} octets: {}", biglen, cut, e)) }
+        else if got.len() != 2 || got[0] != kid(&big) || got[1] != kid(&fin) || !buf.is_empty() { Some(format!("a well-formed {}-octet frame cut after {} octets: {} messages delivered, {} octets left", biglen, cut, got.len(), buf.len())) } else { None };
+    (format!("delivered={}", got.len()), o)
 }
 
 pub fn run(_lane: &str, args: &[&str]) -> (String, Option<String>) {
